@@ -14,6 +14,12 @@ Chain of the proof (template.rs + scope_spec.rs + scope_lemmas.rs):
                  (= last child scope) of their scope only (iv), (v) the names of a repeat body block also in the rest of the repeat statement,
                  (i)+(vi) among visible names of one text the one declared LATEST (largest position) is selected.
 The real code deviates from `visible` in exactly the ways recorded as finding clauses (see `findings` below and the final report).
+
+Two shapes of the code are supported, per finding, detected from the repository text on every run (`_detect`): today's, and the one after
+proposed_fix_duplicate_names.diff / proposed_fix_for_header.diff (this directory). The model mirrors the code, so it follows the shape
+(spec constants dup_fixed / hdr_trav / enc_for, emitted into the assembled file); on a repaired shape the guarded clause + finding clause pair
+is replaced by ONE unguarded clause (C13.lookup.returns-the-visible-declaration / latest-visible-declaration-wins / C13.env.exactly-visible at
+every position, for every name) and the witnesses assert Lua's choice instead of the deviation.
 """
 import os
 import re
@@ -27,6 +33,30 @@ DECL = SRC + 'db_index/declaration/'
 TREE = DECL + 'decl_tree.rs'
 SCOPE = DECL + 'scope.rs'
 DID = DECL + 'decl_id.rs'
+
+
+BUILDER_MOD = SRC + 'compilation/analyzer/decl/mod.rs'
+
+
+def _detect():
+    """which of the two shapes of the code under proof the repository has (today's / repaired), per finding. The model of the traversal has
+    to mirror the code (the exec contracts are refinement statements), and the reading of the tree follows the builder's encoding:
+      DUP  visit_child_scope walks the names of a LocalOrAssignStat scope last first (`.iter().rev()`)          -> m_expose, `ordered`
+      TRAV visit_visible_decls searches a ForRange scope in the non-entry visit only from its body (is_in_loop_body) -> lsearch, region
+      ENC  the builder gives the numeric for (LuaForStat) the scope kind ForRange                                 -> region (reading of Normal)"""
+    repo = os.environ.get('VERIF_REPO', '/repo')
+    vcs = X.find_item(repo, {'file': TREE, 'kind': 'fn', 'impl': 'LuaDeclarationTree', 'name': 'visit_child_scope'}).raw
+    dup = bool(re.search(r'LuaScopeKind::LocalOrAssignStat => \{\s*(?://[^\n]*\n\s*)*for child in scope\.get_children\(\)\.iter\(\)\.rev\(\) \{', vcs))
+    vvd = X.find_item(repo, {'file': TREE, 'kind': 'fn', 'impl': 'LuaDeclarationTree', 'name': 'visit_visible_decls'}).raw
+    trav = bool(re.search(r'scope\.get_kind\(\) != LuaScopeKind::ForRange \|\| self\.is_in_loop_body\(scope, position\)', vvd))
+    enc = bool(re.search(r'LuaAst::LuaForStat\(stat\) => \{\s*analyzer\.create_scope\(stat\.get_range\(\), LuaScopeKind::ForRange\);',
+                         X.read_source(repo, BUILDER_MOD)))
+    return dup, trav, enc
+
+
+DUP, TRAV, ENC = _detect()
+HDR = TRAV and ENC          # loop headers repaired: the code's reading of `visible` is Lua's at every position
+
 
 _CTRL = re.compile(r'\breturn\b|\bbreak\b|\bcontinue\b|\?')
 
@@ -190,6 +220,10 @@ def closure_visitor(text, ctor=None, writeback=None, body_from=None, body_to=Non
 
 
 EXTRA_RULES = [
+    ('c13-rev-slice-for', r'for (\w+) in ([\w.()]+?)\.iter\(\)\.rev\(\) \{',
+     r'let __vs = \2; let mut __vk: usize = __vs.len(); while __vk > 0 { __vk -= 1; let \1 = &__vs[__vk];',
+     '`for x in E.iter().rev() { BODY }` (E a slice) -> `let __vs = E; let mut __vk = __vs.len(); while __vk > 0 { __vk -= 1; let x = &__vs[__vk]; BODY }`: '
+     'std, Rev over slice::Iter yields &E[len-1], &E[len-2], .., &E[0] (DoubleEndedIterator::next_back of a slice iterator)'),
     ('c13-captured-assign', r'(?<![\w.*])result = Some\(decl\);', '*result = Some(decl);',
      'inside the closure `result` is the captured variable of the enclosing function (captured by unique borrow because the body assigns it: '
      'Rust reference, closure capture modes); an assignment in the closure body is an assignment through that borrow. In the lifted body '
@@ -213,10 +247,19 @@ EXTRA_RULES = [
 
 CHILD_LOOP = """invariant
                     it.seq().len() == ks.len(), forall|j: int| 0 <= j < ks.len() ==> *it.seq()[j] == ks[j],
-                    f.inv(), run::<F>(f0, decls_from(ks, 0)) == run::<F>(f.state(), decls_from(ks, it.index@ as int)), stmt_kind(scope.kind),
+                    f.inv(), run::<F>(f0, decls_from(ks, 0)) == run::<F>(f.state(), decls_from(ks, it.index@ as int)),
+                    (scope.id.id as int) < self.scopes@.len() && m_expose(self.scopes@, scope.id.id as int) == decls_from(ks, 0),
                     (scope.id.id as int) < self.scopes@.len(), *scope == self.scopes@[scope.id.id as int], ks == scope.children@, f0 == old(f).state(),"""
 CHILD_DONE = "proof { assert(decls_from(ks, ks.len() as int) =~= Seq::empty()); lemma_run_empty::<F>(f.state()); }"
 CHILD_STEP = "proof { lemma_child_step::<F>(f.state(), ks, it.index@ as int); }"
+CHILD_REV_LOOP = """invariant
+                    __vk <= ks.len(), __vs@ == ks, f.inv(),
+                    (scope.id.id as int) < self.scopes@.len() && m_expose(self.scopes@, scope.id.id as int) == decls_rev(ks, ks.len() as int),
+                    run::<F>(f0, decls_rev(ks, ks.len() as int)) == run::<F>(f.state(), decls_rev(ks, __vk as int)),
+                    (scope.id.id as int) < self.scopes@.len(), *scope == self.scopes@[scope.id.id as int], ks == scope.children@, f0 == old(f).state(),
+                decreases __vk"""
+CHILD_REV_DONE = "proof { assert(decls_rev(ks, 0) =~= Seq::empty()); lemma_run_empty::<F>(f.state()); }"
+CHILD_REV_STEP = "proof { lemma_child_rev_step::<F>(f.state(), ks, __vk as int + 1); }"
 RPOS_LOOP = """invariant_except_break
                     cut is None,
                     forall|j: int| __rk <= j < ks.len() ==> !before(ss, ks[j], p),
@@ -278,28 +321,39 @@ def _none(lua):
             '==> dname(&self.decls@[id]) != name@)' % lua)
 
 
-FIND_ENSURES = """self.scopes@.len() == 0 ==> r is None,
-            // the traversal model: the visitor is fed the trace m_visit from the innermost scope around the position (needs links_wf only)
+_TW = 'tree_wf(self.scopes@)'
+_HD = 'in_header(self.scopes@, position.raw as int)'
+_find = ["""self.scopes@.len() == 0 ==> r is None""",
+         """// the traversal model: the visitor is fed the trace m_visit from the innermost scope around the position (needs links_wf only)
             self.scopes@.len() > 0 ==> exists|l: int| is_leaf(self.scopes@, l, position.raw as int)
-                && r == run::<FindVisitor>((self, name@, None::<&LuaDecl>), m_visit(self.scopes@, l, position.raw as int, true)).0.2 /*@C13.lookup.model*/,
-            // Some(d): d is a declaration of the tree with that name that Lua's scoping makes visible at the position
-            (tree_wf(self.scopes@) && !in_header(self.scopes@, position.raw as int)) ==> %(found)s /*@C13.lookup.returns-the-visible-declaration*/,
-            // None: no declaration with that name is visible there (the caller falls back to the global)
-            tree_wf(self.scopes@) ==> %(none)s /*@C13.lookup.none-iff-no-visible-local*/,
-            // (i) shadowing: among the visible declarations with that name the one declared latest is returned
-            (tree_wf(self.scopes@) && no_dup_named(self, name@)) ==> %(latest)s /*@C13.lookup.latest-visible-declaration-wins*/,
-            // what the code does at EVERY position, in its own reading of `visible` (region(.., lua = false): a declaration of a Normal /
-            // ForRange scope is visible everywhere inside that scope behind the name); used by the finding witnesses below
-            tree_wf(self.scopes@) ==> %(found_c)s /*@C13.lookup.code-reading.found*/,
-            tree_wf(self.scopes@) ==> %(none_c)s /*@C13.lookup.code-reading.none*/,
-            (tree_wf(self.scopes@) && no_dup_named(self, name@)) ==> %(latest_c)s /*@C13.lookup.code-reading.latest*/,
-            // ---- the remaining cases of the clauses above: FINDINGS on the current tree (see `findings`) ----
-            // (iv) a position in the header of a numeric / generic for (or in a closure inside it): loop variables are not visible there
-            (tree_wf(self.scopes@) && in_header(self.scopes@, position.raw as int)) ==> %(found)s /*@C13.lookup.loop-variable-not-visible-in-loop-header*/,
-            // (vi) `local a, a = 1, 2`: the later of two names of one statement wins
-            (tree_wf(self.scopes@) && !no_dup_named(self, name@)) ==> %(latest)s /*@C13.lookup.duplicate-names-later-wins*/""" % {
-    'found': _found('true'), 'latest': _latest('true'), 'none': _none('true'),
-    'found_c': _found('false'), 'latest_c': _latest('false'), 'none_c': _none('false')}
+                && r == run::<FindVisitor>((self, name@, None::<&LuaDecl>), m_visit(self.scopes@, l, position.raw as int, true)).0.2 /*@C13.lookup.model*/"""]
+if HDR:
+    _find.append('// Some(d): d is a declaration of the tree with that name that Lua\'s scoping makes visible at the position (EVERY position)\n'
+                 '            %s ==> %s /*@C13.lookup.returns-the-visible-declaration*/' % (_TW, _found('true')))
+else:
+    _find.append('// Some(d): d is a declaration of the tree with that name that Lua\'s scoping makes visible at the position\n'
+                 '            (%s && !%s) ==> %s /*@C13.lookup.returns-the-visible-declaration*/' % (_TW, _HD, _found('true')))
+_find.append('// None: no declaration with that name is visible there (the caller falls back to the global)\n'
+             '            %s ==> %s /*@C13.lookup.none-iff-no-visible-local*/' % (_TW, _none('true')))
+if DUP:
+    _find.append('// (i) + (vi) shadowing: among the visible declarations with that name the one declared latest is returned\n'
+                 '            %s ==> %s /*@C13.lookup.latest-visible-declaration-wins*/' % (_TW, _latest('true')))
+else:
+    _find.append('// (i) shadowing: among the visible declarations with that name the one declared latest is returned\n'
+                 '            (%s && no_dup_named(self, name@)) ==> %s /*@C13.lookup.latest-visible-declaration-wins*/' % (_TW, _latest('true')))
+_find += ['// what the code does at EVERY position, in its own reading of `visible` (region(.., lua = false)); used by the witnesses\n'
+          '            %s ==> %s /*@C13.lookup.code-reading.found*/' % (_TW, _found('false')),
+          '%s ==> %s /*@C13.lookup.code-reading.none*/' % (_TW, _none('false')),
+          '(%s && (dup_fixed() || no_dup_named(self, name@))) ==> %s /*@C13.lookup.code-reading.latest*/' % (_TW, _latest('false'))]
+if not HDR:
+    _find.append('// ---- remaining case of returns-the-visible-declaration: FINDING on today\'s tree ----\n'
+                 '            // (iv) a position in the header of a numeric / generic for (or in a closure inside it): loop variables are not visible there\n'
+                 '            (%s && %s) ==> %s /*@C13.lookup.loop-variable-not-visible-in-loop-header*/' % (_TW, _HD, _found('true')))
+if not DUP:
+    _find.append('// ---- remaining case of latest-visible-declaration-wins: FINDING on today\'s tree ----\n'
+                 '            // (vi) `local a, a = 1, 2`: the later of two names of one statement wins\n'
+                 '            (%s && !no_dup_named(self, name@)) ==> %s /*@C13.lookup.duplicate-names-later-wins*/' % (_TW, _latest('true')))
+FIND_ENSURES = ',\n            '.join(_find)
 FIND_PROOF = """proof {
             let ss = self.scopes@; let l = scope.id.id as int; let p = position.raw as int;
             let t = m_visit(ss, l, p, true);
@@ -318,14 +372,14 @@ FIND_PROOF = """proof {
                     let id = t[j]->Decl_0;
                     assert(visible(ss, id, p, false));
                     lemma_entry_ord(ss, l, p);
-                    if no_dup_named(self, name@) {
+                    if dup_fixed() || no_dup_named(self, name@) {
                         assert forall|id2: LuaDeclId| self.decls@.contains_key(id2) && #[trigger] visible(ss, id2, p, false) && dname(&self.decls@[id2]) == name@
                             implies pos_of(id2) <= pos_of(id) by {
                             assert(t.contains(ScopeOrDeclId::Decl(id2)));
                             let b = choose|b: int| 0 <= b < t.len() && t[b] == ScopeOrDeclId::Decl(id2);
                             assert(find_hit(self, name@, t[b]));
                             lemma_first_is_latest(ss, t, j, b);
-                            if same_stmt(ss, t[j], t[b]) && id != id2 {
+                            if !dup_fixed() && same_stmt(ss, t[j], t[b]) && id != id2 {
                                 let s = choose|s: int| 0 <= s < ss.len() && kd(ss, s) == LuaScopeKind::LocalOrAssignStat
                                     && #[trigger] kids(ss, s).contains(t[j]) && kids(ss, s).contains(t[b]);
                                 let k1 = choose|k1: int| 0 <= k1 < kids(ss, s).len() && kids(ss, s)[k1] == t[j];
@@ -345,17 +399,22 @@ FIND_PROOF = """proof {
                 }
             }
         }"""
-ENV_ENSURES = """self.scopes@.len() == 0 ==> r is None,
-            self.scopes@.len() > 0 ==> r is Some,
-            // exactly the declarations visible at the position (but the implicit `self`)
-            (tree_wf(self.scopes@) && decls_wf(self) && !in_header(self.scopes@, position.raw as int)) ==> (r matches Some(v) && forall|id: LuaDeclId|
-                #[trigger] v@.contains(id) <==> (visible(self.scopes@, id, position.raw as int, true) && !dself(&self.decls@[id]))) /*@C13.env.exactly-visible*/,
-            // closest first: the list is the order-preserving filter (env_list: drop the implicit self) of a sequence in closest-first order
-            // (`ordered`: a later element has a smaller position, or occurred before, or is another name of the same statement)
-            tree_wf(self.scopes@) ==> (r matches Some(v) && exists|t: Seq<ScopeOrDeclId>| v@ == env_list(self, t) && ordered(self.scopes@, t)) /*@C13.env.closest-first*/,
-            // ---- the remaining case of C13.env.exactly-visible: FINDING on the current tree (same defect as C13.lookup.loop-variable-...) ----
-            (tree_wf(self.scopes@) && decls_wf(self) && in_header(self.scopes@, position.raw as int)) ==> (r matches Some(v) && forall|id: LuaDeclId|
-                #[trigger] v@.contains(id) <==> (visible(self.scopes@, id, position.raw as int, true) && !dself(&self.decls@[id]))) /*@C13.env.loop-variable-not-visible-in-loop-header*/"""
+_ENV_EXACT = ('(r matches Some(v) && forall|id: LuaDeclId| #[trigger] v@.contains(id) <==> '
+              '(visible(self.scopes@, id, position.raw as int, true) && !dself(&self.decls@[id])))')
+_env = ['self.scopes@.len() == 0 ==> r is None', 'self.scopes@.len() > 0 ==> r is Some']
+if HDR:
+    _env.append('// exactly the declarations visible at the position (but the implicit `self`), at EVERY position\n'
+                '            (%s && decls_wf(self)) ==> %s /*@C13.env.exactly-visible*/' % (_TW, _ENV_EXACT))
+else:
+    _env.append('// exactly the declarations visible at the position (but the implicit `self`)\n'
+                '            (%s && decls_wf(self) && !%s) ==> %s /*@C13.env.exactly-visible*/' % (_TW, _HD, _ENV_EXACT))
+_env.append('// closest first: the list is the order-preserving filter (env_list: drop the implicit self) of a sequence in closest-first order\n'
+            '            // (`ordered`: a later element has a smaller position, or occurred before' + ('' if DUP else ', or is another name of the same statement') + ')\n'
+            '            %s ==> (r matches Some(v) && exists|t: Seq<ScopeOrDeclId>| v@ == env_list(self, t) && ordered(self.scopes@, t)) /*@C13.env.closest-first*/' % _TW)
+if not HDR:
+    _env.append('// ---- remaining case of C13.env.exactly-visible: FINDING on today\'s tree (same defect as C13.lookup.loop-variable-...) ----\n'
+                '            (%s && decls_wf(self) && %s) ==> %s /*@C13.env.loop-variable-not-visible-in-loop-header*/' % (_TW, _HD, _ENV_EXACT))
+ENV_ENSURES = ',\n            '.join(_env)
 ENV_PROOF = """proof {
             let ss = self.scopes@; let l = scope.id.id as int; let p = position.raw as int;
             let t = m_visit(ss, l, p, true);
@@ -458,16 +517,17 @@ UNIT = {
             final(self).scopes == old(self).scopes"""),
         # ---- the traversal ------------------------------------------------------------------------------------------------------------
         'LuaDeclarationTree::visit_child_scope': fn(
-            'visit_child_scope', ret='r', rules=['c13-fnmut-visitor-bound', ('c13-fnmut-visitor-call', {'count': 2})],
+            'visit_child_scope', ret='r',
+            rules=['c13-fnmut-visitor-bound', ('c13-fnmut-visitor-call', {'count': 2})] + (['c13-rev-slice-for'] if DUP else []),
             requires=WF + ', ' + SC + ', old(f).inv()',
             ensures='final(f).inv(), (final(f).state(), r) == run::<F>(old(f).state(), m_expose(self.scopes@, scope.id.id as int)) /*@C13.expose.model*/',
             body_first='let ghost f0 = f.state(); let ghost ks = scope.children@;',
-            iter_names={0: 'it', 1: 'it'},
-            loops={0: CHILD_LOOP, 1: CHILD_LOOP},
+            iter_names=({0: 'it'} if DUP else {0: 'it', 1: 'it'}),
+            loops={0: CHILD_LOOP, 1: (CHILD_REV_LOOP if DUP else CHILD_LOOP)},
             proof=[(r'false\s*\}\s*LuaScopeKind::LocalOrAssignStat', 'before', CHILD_DONE),
-                   (r'false\s*\}\s*_ => false', 'before', CHILD_DONE),
+                   (r'false\s*\}\s*_ => false', 'before', (CHILD_REV_DONE if DUP else CHILD_DONE)),
                    (r'(?s)if let ScopeOrDeclId::Decl\(decl_id\) = child(?=.*LuaScopeKind::LocalOrAssignStat)', 'before', CHILD_STEP),
-                   (r'(?s)if let ScopeOrDeclId::Decl\(decl_id\) = child(?!.*LuaScopeKind::LocalOrAssignStat)', 'before', CHILD_STEP)]),
+                   (r'(?s)if let ScopeOrDeclId::Decl\(decl_id\) = child(?!.*LuaScopeKind::LocalOrAssignStat)', 'before', (CHILD_REV_STEP if DUP else CHILD_STEP))]),
         'LuaDeclarationTree::search_scope_children': fn(
             'search_scope_children', ret='r',
             rules=['c13-fnmut-visitor-bound', ('c13-fnmut-visitor-call', {'count': 1}), 'c13-rposition-loop', 'c13-rev-range'],
@@ -485,6 +545,9 @@ UNIT = {
             ensures='final(f).inv(), final(f).state() == run::<F>(old(f).state(), m_visit(self.scopes@, scope.id.id as int, position.raw as int, is_entry)).0 /*@C13.visit.model*/',
             decreases='(if is_entry { 1int } else { 0int }), (if is_entry { self.scopes@.len() - scope.id.id } else { scope.id.id as int }) /*@C13.lookup.total*/',
             body_first=VISIT_FIRST),
+        'LuaDeclarationTree::is_in_loop_body': fn(
+            'is_in_loop_body', ret='r', requires=WF + ', ' + SC,
+            ensures='r == in_body(self.scopes@, scope.id.id as int, position.raw as int) /*@C13.loop-body.is-the-last-child-scope*/'),
         'LuaDeclarationTree::find_scope': fn(
             'find_scope', ret='r', rules=[('c13-filter-map-find-loop', {'ty': 'Option<&LuaScope>'})],
             requires=WF,
@@ -583,7 +646,8 @@ UNIT = {
         'find_scope(pos) = the scope around pos none of whose children is around pos; every scope around pos is it or an ancestor (lemma_leaf_innermost)',
         'visit_visible_decls / search_scope_children / visit_child_scope == the functional model m_visit / m_search / m_expose, terminate, under links_wf only',
     ],
-    # genuine deviations of the real code from the property (each one: a failing clause + a verified witness on a concrete tree)
+    # genuine deviations of TODAY's code from the property (each one: a failing clause + a verified witness on a concrete tree + a regression test
+    # in the proposed diff that fails on today's crate with exactly these values: 17 / 16 / 6 instead of 6 / 6 / 9)
     'findings': [
         {'clause': 'C13.lookup.loop-variable-not-visible-in-loop-header (+ C13.env.loop-variable-not-visible-in-loop-header)',
          'what': 'the loop variable of a NUMERIC for is visible in the loop header: ForStat gets a scope of kind Normal, and an entry at a Normal scope searches '
@@ -627,3 +691,41 @@ UNIT = {
          'pattern': r'\n {12}false', 'repl': '\n            true', 'expect': r'C13\.env\.visitor-never-stops'},
     ],
 }
+
+
+# ---- shape-dependent parts ---------------------------------------------------------------------------------------------------------------
+if not TRAV:
+    del UNIT['items']['LuaDeclarationTree::is_in_loop_body']
+
+
+def _template():
+    d = os.path.dirname(os.path.abspath(__file__))
+    with open(os.path.join(d, 'template.rs'), encoding='utf-8') as f:
+        t = f.read()
+    with open(os.path.join(d, 'witness.rs'), encoding='utf-8') as f:
+        w = f.read()
+    b = lambda v: 'true' if v else 'false'
+    cfg = ('/// visit_child_scope walks the names of a LocalOrAssignStat scope last first\n'
+           'pub open spec fn dup_fixed() -> bool { %s }\n'
+           '/// visit_visible_decls searches a ForRange scope, when it is not the entry scope, only from its body (is_in_loop_body)\n'
+           'pub open spec fn hdr_trav() -> bool { %s }\n'
+           '/// the builder gives the numeric for (LuaForStat) the scope kind ForRange\n'
+           'pub open spec fn enc_for() -> bool { %s }' % (b(DUP), b(TRAV), b(ENC)))
+    t = t.replace('//%%C13_CONFIG%%', cfg)
+    t = t.replace('//%%C13_LOOP_BODY%%', '//@@ LuaDeclarationTree::is_in_loop_body' if TRAV else '')
+    t = t.replace('//%%C13_WITNESSES%%', w.replace('W_FOR_KIND', 'LuaScopeKind::ForRange' if ENC else 'LuaScopeKind::Normal'))
+    return t
+
+
+UNIT['template_text'] = _template()
+UNIT['shape'] = {'dup_fixed': DUP, 'hdr_trav': TRAV, 'enc_for': ENC}
+# (reverting the reverse walk of the repaired visit_child_scope is not a text mutant: it IS today's shape, which the unit detects and on which it
+# exits 1 exactly at C13.lookup.duplicate-names-later-wins)
+if TRAV:
+    UNIT['mutants'] += [
+        {'name': 'repaired-loop-body-guard-dropped', 'item': 'LuaDeclarationTree::visit_visible_decls',
+         'pattern': r'scope\.get_kind\(\) != LuaScopeKind::ForRange \|\| self\.is_in_loop_body\(scope, position\)', 'repl': 'true',
+         'expect': r'visit_visible_decls.*C13\.visit\.model'},
+        {'name': 'repaired-loop-body-is-the-first-child', 'item': 'LuaDeclarationTree::is_in_loop_body',
+         'pattern': r'scope\.get_children\(\)\.last\(\)', 'repl': 'scope.get_children().first()', 'expect': r'is_in_loop_body:'},
+    ]
